@@ -69,7 +69,7 @@ func c01case(c GCase, a *run.Acc) {
 	gd := gram.NewGuard(env.Base)
 	gd.MaxEvents, gd.MaxCalls = 60000, 120000
 	gd.NoAssert = true // the activation bound is C02's business; here results are judged whenever the call returns
-	b := gram.Build(g, &gram.Hooks{Inside: gd.Inside, Outside: gd.Outside})
+	b := gram.Build(g, &gram.Hooks{Inside: gd.Inside, Outside: gd.Outside, MemoExpr: c.MemoExpr})
 	o := gram.Run(env, b.NTs[c.NT], c.Pos)
 	a.Count("probe_events", int64(gd.Events))
 	a.Count("curtailed_calls_observed", int64(gd.Curtailed))
